@@ -103,9 +103,9 @@ def index_params(tfs, tier, rng):
         s = tf["sec"]
         n = 366 * DAY // s
         if quick:
-            full = allzy if s >= 14400 else ([[z + 1, rng.choice(YEARS)] for z in range(nz)] if s >= 7200 else [])
+            full = allzy if s >= 86400 else ([[z + 1, rng.choice(YEARS)] for z in range(nz)] if s >= 14400 else [])
             hw = 7200 if s >= 300 else (3600 if s >= 60 else (1800 if s >= 30 else (600 if s >= 10 else 120)))
-            stride_m = max(1, n // 200)
+            stride_m = max(1, n // 150)
             emit_target = 250
         else:
             if s >= 300:
@@ -272,7 +272,7 @@ def run_c30(res, tier, rng, binary, zones, tfs, known):
 # ------------------------------------------------------------------------------------------------------------
 def mults_for(tier, rng):
     if tier == "quick":
-        return sorted({1, rng.choice([2, 3, 4, 5, 6, 7]), rng.choice([10, 12, 15, 24, 30, 45, 60, 90, 120, 1440])})
+        return sorted({1, rng.choice([2, 3, 4, 5, 6, 7, 10, 12, 15, 24, 30, 45, 60, 90, 120, 1440])})
     return sorted(set(range(1, 13)) | {15, 20, 24, 30, 45, 60, 90, 120, 1440})
 
 
@@ -283,7 +283,7 @@ def window_input(inp, tier, rng):
     inp["wdists"] = [0, 1, 3600, 86400, 90000] if quick else [0, 1, 59, 60, 1799, 1800, 3599, 3600, 7199, 7200, 32400, 86399, 86400, 90000]
     lo, hi = 365 * DAY - 14 * DAY, (365 * 3 + 366) * DAY + 14 * DAY      # 2018-12-18 .. 2022-01-15 relative to BASE
     inp["wlo"], inp["whi"] = lo, hi
-    n = 100 if quick else 600
+    n = 80 if quick else 600
     inp["wstride_n"] = n
     inp["wstride_step"] = (hi - lo) // n - rng.randrange(1, 5000)
     inp["wstride_s0"] = lo + rng.randrange(1, 86400)
